@@ -168,6 +168,7 @@ func (r *resolver) Resolve(ctx context.Context, vk resolve.VersionKey) (*resolve
 			continue
 		}
 		cur.processed = true
+		verifStep("pop", cur.ver.Name, cur.ver.Version, "", "", "")
 		if debug {
 			log.Printf("Current %s", r.treeNodeString(cur))
 		}
@@ -214,6 +215,7 @@ func (r *resolver) Resolve(ctx context.Context, vk resolve.VersionKey) (*resolve
 				} else {
 					c, err := semver.NPM.ParseConstraint(idep.Version)
 					if err != nil {
+						verifStep("declare", idep.Name, "", idep.Version, alias, "fatal")
 						return nil, fmt.Errorf("ParseConstraint %s: %w", idep.Version, err)
 					}
 					var cvk resolve.Version
@@ -305,11 +307,13 @@ func (r *resolver) Resolve(ctx context.Context, vk resolve.VersionKey) (*resolve
 				if err := g.AddEdge(cur.id, resolved.id, idep.Version, dt); err != nil {
 					return nil, err
 				}
+				verifStep("declare", idep.Name, resolved.ver.Version, idep.Version, alias, "reuse")
 				continue
 			}
 			// No matching concrete version for the requirement.
 			if wouldPick.VersionKey == (resolve.VersionKey{}) {
 				g.AddError(cur.id, idep.VersionKey, fmt.Sprintf("could not find a version that satisfies requirement %s for package %s", idep.Version, idep.Name))
+				verifStep("declare", idep.Name, "", idep.Version, alias, "error")
 				continue
 			}
 
@@ -360,6 +364,7 @@ func (r *resolver) Resolve(ctx context.Context, vk resolve.VersionKey) (*resolve
 				if err != nil {
 					return nil, err
 				}
+				verifStep("declare", idep.Name, "", idep.Version, alias, "error")
 				continue
 			}
 			for !installHere && parent.parent != nil {
@@ -393,6 +398,7 @@ func (r *resolver) Resolve(ctx context.Context, vk resolve.VersionKey) (*resolve
 				if err != nil {
 					return nil, err
 				}
+				verifStep("declare", idep.Name, "", idep.Version, alias, "error")
 				continue
 			}
 			if alias == "" {
@@ -414,6 +420,7 @@ func (r *resolver) Resolve(ctx context.Context, vk resolve.VersionKey) (*resolve
 			if err := g.AddEdge(cur.id, node.id, idep.Version, dt); err != nil {
 				return nil, err
 			}
+			verifStep("declare", idep.Name, node.ver.Version, idep.Version, alias, "new")
 		}
 		// Reverse the insertion queue, to have a DFS in the transitive
 		// resolution.
@@ -449,6 +456,7 @@ func (r *resolver) Resolve(ctx context.Context, vk resolve.VersionKey) (*resolve
 
 	g.Duration = time.Since(start)
 	verifEmit(root)
+	verifStep("done", "", "", "", "", "")
 	return g, nil
 }
 
